@@ -102,15 +102,81 @@ def _change_json(c):
     return {"text": "".join(map(chr, c["t"]))}
 
 
+def _item(case, uri):
+    return {"uri": uri, "languageId": "plaintext", "version": case["v0"], "text": "".join(map(chr, case["text"]))}
+
+
+def _nb_uri(uri):
+    return uri + ".ipynb"
+
+
 def _msgs(case, uri):
-    out = [{"jsonrpc": "2.0", "method": "textDocument/didOpen",
-            "params": {"textDocument": {"uri": uri, "languageId": "plaintext", "version": case["v0"],
-                                        "text": "".join(map(chr, case["text"]))}}}]
-    for v, cs in case["ns"]:
-        out.append({"jsonrpc": "2.0", "method": "textDocument/didChange",
-                    "params": {"textDocument": {"uri": uri, "version": v},
-                               "contentChanges": [_change_json(c) for c in cs]}})
+    """the session as (message, observe-after?) pairs.  case["cell"]: None = a plain document
+    (textDocument/didOpen, didChange); "open" = the document is a cell of a notebook opened with
+    notebookDocument/didOpen; "struct" = the cell is added to an open notebook by a
+    notebookDocument/didChange structure (array + didOpen).  Cell edits travel as
+    notebookDocument/didChange cells.textContent entries."""
+    cell = case.get("cell")
+    nb = _nb_uri(uri)
+    ncell = {"kind": 2, "document": uri}
+    if cell is None:
+        out = [({"jsonrpc": "2.0", "method": "textDocument/didOpen", "params": {"textDocument": _item(case, uri)}}, True)]
+    elif cell == "open":
+        out = [({"jsonrpc": "2.0", "method": "notebookDocument/didOpen",
+                 "params": {"notebookDocument": {"uri": nb, "notebookType": "c04", "version": 1, "cells": [ncell]},
+                            "cellTextDocuments": [_item(case, uri)]}}, True)]
+    else:
+        out = [({"jsonrpc": "2.0", "method": "notebookDocument/didOpen",
+                 "params": {"notebookDocument": {"uri": nb, "notebookType": "c04", "version": 1, "cells": []},
+                            "cellTextDocuments": []}}, False),
+               ({"jsonrpc": "2.0", "method": "notebookDocument/didChange",
+                 "params": {"notebookDocument": {"uri": nb, "version": 2},
+                            "change": {"cells": {"structure": {"array": {"start": 0, "deleteCount": 0, "cells": [ncell]},
+                                                               "didOpen": [_item(case, uri)]}}}}}, True)]
+    for i, (v, cs) in enumerate(case["ns"]):
+        if cell is None:
+            out.append(({"jsonrpc": "2.0", "method": "textDocument/didChange",
+                         "params": {"textDocument": {"uri": uri, "version": v},
+                                    "contentChanges": [_change_json(c) for c in cs]}}, True))
+        else:
+            out.append(({"jsonrpc": "2.0", "method": "notebookDocument/didChange",
+                         "params": {"notebookDocument": {"uri": nb, "version": 3 + i},
+                                    "change": {"cells": {"textContent": [
+                                        {"document": {"uri": uri, "version": v},
+                                         "changes": [_change_json(c) for c in cs]}]}}}}, True))
     return out
+
+
+def _close_msg(case, uri):
+    if case.get("cell") is None:
+        return {"jsonrpc": "2.0", "method": "textDocument/didClose", "params": {"textDocument": {"uri": uri}}}
+    return {"jsonrpc": "2.0", "method": "notebookDocument/didClose",
+            "params": {"notebookDocument": {"uri": _nb_uri(uri)}, "cellTextDocuments": [{"uri": uri}]}}
+
+
+DISK_TEXT = "this is on disk\nNOT what the client sent \U0001F60B\n"
+
+
+class _Uri:
+    """the document's URI: made up, or (case["disk"]) that of a real file under work/C04/ whose content
+    differs from everything the client sends - an open document is the client's text, never the disk's"""
+    def __init__(self, case, n):
+        self.path = None
+        if case.get("disk"):
+            from pygls import uris
+            d = os.path.join(core.ROOT, "work", "C04")
+            os.makedirs(d, exist_ok=True)
+            self.path = os.path.join(d, f"disk_{os.getpid()}_{n}.txt")
+            with open(self.path, "w", encoding="utf-8", newline="") as f:
+                f.write(DISK_TEXT)
+            self.uri = uris.from_fs_path(self.path)
+        else:
+            self.uri = URI % n
+    def __enter__(self):
+        return self.uri
+    def __exit__(self, *a):
+        if self.path and os.path.exists(self.path):
+            os.remove(self.path)
 
 
 def _query(f):
@@ -185,16 +251,19 @@ def _run_frames(case):
     """one long-lived server per (encoding, sync kind); a fresh document per history"""
     s = _shared_server(case["e"], case["kind"])
     _COUNTER[0] += 1
-    uri = URI % _COUNTER[0]
     obs = []
-    for step, m in enumerate(_msgs(case, uri)):
-        try:
-            _deliver(s, m)
-            obs.append(_observe(s, uri, _qs(case, step)))
-        except Exception as ex:                      # the read loop would log and go on
-            obs.append(["raise", type(ex).__name__])
-    _deliver(s, {"jsonrpc": "2.0", "method": "textDocument/didClose",
-                 "params": {"textDocument": {"uri": uri}}})
+    with _Uri(case, _COUNTER[0]) as uri:
+        step = 0
+        for m, observe in _msgs(case, uri):
+            try:
+                _deliver(s, m)
+                if observe:
+                    obs.append(_observe(s, uri, _qs(case, step)))
+            except Exception as ex:                      # the read loop would log and go on
+                if observe:
+                    obs.append(["raise", type(ex).__name__])
+            step += 1 if observe else 0
+        _deliver(s, _close_msg(case, uri))
     return obs
 
 
@@ -205,8 +274,15 @@ def _run_loop(case, use_async):
     from lsprotocol import types
     from pygls.io_ import run, run_async
     s = _new_server(case["e"], case["kind"])
-    uri = URI % 0
     obs = []
+    with _Uri(case, 0) as uri:
+        return _run_loop_on(case, use_async, s, uri, obs)
+
+
+def _run_loop_on(case, use_async, s, uri, obs):
+    import asyncio, threading
+    from lsprotocol import types
+    from pygls.io_ import run, run_async
 
     @s.feature(types.TEXT_DOCUMENT_DID_OPEN)
     def _o(ls, params):
@@ -216,7 +292,7 @@ def _run_loop(case, use_async):
     def _c(ls, params):
         obs.append(_observe(ls, params.text_document.uri, _qs(case, len(obs))))
 
-    data = b"".join(_frame(m) for m in _init_msgs(case["e"]) + _msgs(case, uri))
+    data = b"".join(_frame(m) for m in _init_msgs(case["e"]) + [m for m, _ in _msgs(case, uri)])
     errs = []
     stop = threading.Event()
     if use_async:
@@ -256,14 +332,15 @@ def _run_chunk(cases):
 # ---------------- the property ----------------
 class C04(core.Property):
     id = "C04"
-    modules = ["Proofs.DocProofs", "Props.C04"]
+    modules = ["Proofs.DocProofs", "Proofs.DocCellProofs", "Props.C04"]
     obligations = ["concat_lsp_lines", "spec_locate_located", "converted_offset", "rebuild_is_splice",
                    "incremental_exact", "apply_change_kinds", "history_fold", "history_version",
                    "spec_locate_complete", "spec_locate_eof", "spec_locate_mono",
                    "spec_locate_complete_clamp", "did_change_version",
                    "C04_partial", "C04_utf16_utf32", "C04_full_none", "C04_version", "C04_refuted_utf8",
-                   "C04_refuted", "C04_reference_agrees", "C04_nonvacuous", "C04_queries_stateless"]
-    coq_targets = ["Props/C04.vo", "Extract/ExtractC04.vo"]
+                   "C04_refuted", "C04_reference_agrees", "C04_nonvacuous", "C04_queries_stateless",
+                   "cell_document_uses_workspace_encoding"]
+    coq_targets = ["Props/C04.vo", "Proofs/DocCellProofs.vo", "Extract/ExtractC04.vo"]
     rule = ("a case is one editing session on one document: didOpen + 1..40 didChange notifications (1..3 changes "
             "each), encoding x sync kind, with queries (lines, offset_at_position, word_at_position, position_from/to_"
             "client_units at sampled positions: first / last / edited line, past the end) between the notifications; non-trivial = at least 2 changes and at least one change that is "
@@ -289,7 +366,7 @@ class C04(core.Property):
                 cases.extend(json.load(open(os.path.join(cdir, f))))
         rng = chk.rng
         # 1. bounded-exhaustive single edits
-        alpha = [0x61, 0xE9, 0x1F60B, 10, 13, 0x2028, 0x0C] if chk.quick else [0x61, 0xE9, 0x20AC, 0x1F60B, 10, 13, 0x0B, 0x2028]
+        alpha = [0x61, 0xE9, 0x1F60B, 10, 13, 0x2028] if chk.quick else [0x61, 0xE9, 0x20AC, 0x1F60B, 10, 13, 0x0B, 0x2028]
         L = 3 if chk.quick else 4
         cases.extend(self._exhaustive(alpha, L, ENCS))
         self.exhaustive = True
@@ -305,6 +382,7 @@ class C04(core.Property):
         for _ in range(chk.n(20, 100)):
             c = self._history(rng, rng.choice(ENCS), rng.choice(KINDS), self._text(rng, 6, ascii_only=True), 3, "frames")
             i = rng.randrange(len(c["ns"]) + 1)
+            c["cell"] = None      # (a cell's textContent entry without changes is C10's business)
             c["ns"].insert(i, [rng.randint(0, 99), []])
             c["qs"].insert(i + 1, list(c["qs"][i]))
             cases.append(c)
@@ -347,6 +425,12 @@ class C04(core.Property):
         # queries before and after the edit: every case on a text of at most one character (the empty
         # document above all), one in nine of the others
         for idx, c in enumerate(out):
+            if not c["text"] or (not c["expect"] and idx % 3 == 0):
+                c["disk"] = True        # the client's text is empty at some point: never the file's content
+            if idx % 24 == 1:
+                c["cell"] = "open"      # the same edit on a notebook cell's document
+            elif idx % 48 == 5:
+                c["cell"] = "struct"
             if len(c["text"]) <= 1 or idx % 9 == 0:
                 n0, n1 = nlines(c["text"]), nlines(c["expect"])
                 c["qs"] = [[[0, 0], [n0, 0]], [[0, 1], [n1 - 1, 2], [n1, 0]]]
@@ -381,6 +465,8 @@ class C04(core.Property):
         """one valid edit of the editor's buffer -> (change, new buffer)"""
         bs = boundaries(text)
         eols = [o for o in bs if o == len(text) or text[o] in (10, 13)]
+        if text and rng.random() < 0.04:            # select all, delete
+            return {"r": list(pos_of(e, text, 0) + pos_of(e, text, len(text))), "t": []}, []
         r = rng.random()
         if r < 0.12:
             a = 0
@@ -446,8 +532,13 @@ class C04(core.Property):
             v = v + 1 if rng.random() < 0.9 else rng.randint(-3, 10 ** 6)
             ns.append([v, cs])
             # queries between the notifications: always after the first one, then now and again
-            qs.append(self._qpos(rng, e, text, hint) if (len(ns) == 1 or rng.random() < 0.35) else [])
+            qs.append(self._qpos(rng, e, text, hint) if (len(ns) == 1 or rng.random() < 0.25) else [])
+        cell = rng.choice([None, None, None, None, None, None, "open", "struct"])
+        disk = (not text0) or rng.random() < 0.2
+        if cell:
+            via = "frames"
         return {"k": "hist", "e": e, "kind": kind, "text": list(text0), "v0": v0, "ns": ns, "via": via, "qs": qs,
+                "cell": cell, "disk": disk,
                 "expect": text}
 
     def _invalid(self, rng):
@@ -469,12 +560,12 @@ class C04(core.Property):
         if len(cases) < 4000:
             return _run_chunk(cases)
         from concurrent.futures import ProcessPoolExecutor
-        size = max(500, len(cases) // 64)
-        chunks = [cases[i:i + size] for i in range(0, len(cases), size)]
-        out = []
+        n = 16                                      # round robin: every chunk gets the same mix of cases
+        chunks = [cases[i::n] for i in range(n)]
+        out = [None] * len(cases)
         with ProcessPoolExecutor(max_workers=4) as ex:
-            for r in ex.map(_run_chunk, chunks):
-                out.extend(r)
+            for i, r in enumerate(ex.map(_run_chunk, chunks)):
+                out[i::n] = r
         return out
 
     # ---------------- model ----------------
@@ -563,7 +654,7 @@ class C04(core.Property):
         for c in cases:
             nch = sum(len(cs) for _, cs in c["ns"])
             size = "1" if nch <= 1 else "2-5" if nch <= 5 else "6-20" if nch <= 20 else "21+"
-            key = f"utf{c['e']}/kind{c['kind']}/{'invalid' if c.get('monly') else 'valid'}/{c.get('via', 'frames')}/changes{size}"
+            key = f"utf{c['e']}/kind{c['kind']}/{'invalid' if c.get('monly') else 'valid'}/{c.get('via', 'frames')}{'/cell-' + c['cell'] if c.get('cell') else ''}{'/disk' if c.get('disk') else ''}/changes{size}"
             d[key] = d.get(key, 0) + 1
         return d
 
